@@ -6,6 +6,27 @@ sys.path.insert(0, HERE)
 from tools.manifest_table import CHECKS, NOT_APPLICABLE, HOOK_COMMITS  # noqa
 
 props = [json.loads(l)["id"] for l in open(os.path.join(HERE, "properties.jsonl"))]
+# additions of the round-6 session (kept here so that the per-property table stays readable)
+COMMON_TECH = ("; frame obligation `assigns.state` (attributes / class- and module-level containers written, from the effect log of the symbolic execution, against the frame derived from the pinned tree) "
+               "decided together with a bounded native call-history design; the transcendental axioms the SMT encoding instantiates are exported from the encoder and proved in Lean 4 + Mathlib (./check axioms; lean re-run in the thorough tier)")
+EXTRA_TECH = {
+    "C01": "; class- / module-level state of RegionGeom.__init__ + throw (effect log) with a configuration-scan history as native witness",
+    "C03": "; bounded re-throw history on one geometry object",
+    "C04": "; the sampler's buffered-iterator loop is proved for a batch in one chunk AND for a batch spanning two chunks (nditer by assumed contract: consecutive aligned views), one fresh random number per event over all chunks",
+    "C05": "; bounded element-type design (int64 / float32 energies, float32 angles)",
+    "C06": "; bounded entry-point design with three events whose sorting permutation is a rotation",
+    "C07": "; internal-generator path: postcondition `exists w in {d, 1 - d}` for the generator's draw d (uniform-preserving reflection)",
+    "C08": "; binary elementwise functions with out= are modelled (a clamp written in place is part of the term); bounded generate-then-call history (altDec, then __call__ with other altitudes)",
+    "C09": "; argmax over symbolic explicit arrays decided by path forking (the shower-maximum index under every cloud placement)",
+    "C10": "; harness kernel object carries the attributes of a real CphotAng; bounded: every energy decade in one batch, identical showers at different places under a location-dependent cloud model, NaN cloud top",
+    "C11": "; includes C04's two-chunk sampler obligations and C10's per-event-worker design",
+    "C14": "; bounded: the same configuration and seed repeated in one process gives the same table bit for bit",
+    "C15": "; f-string text `<number> <unit>` given a meaning by the contract (serializer / validator pairing); a valid configuration that cannot be written and read back is a failed round trip",
+    "C17": "; ghost file system keyed by the caller's path, path objects included; a run onto the file of an earlier run must complete (bounded)",
+    "C18": "; slice obligations for grids whose axes share one array object; array tokens survive content-preserving conversions; library stubs with the real signatures",
+    "C19": "; bounded memory-layout design (Fortran-ordered, transposed, strided, 3-d)",
+    "C20": "; call-site obligation on compute(): calculate_snr receives the run's detector altitude, antenna count and gain (native witness: pass-through wrapper on the real call); energy linearity replayed natively at the solver's energy and on a ladder 1e-6..1e8",
+}
 checks = []
 for pid in props:
     if pid not in CHECKS:
@@ -20,7 +41,7 @@ for pid in props:
         "engine": "nssvc",
         "level_claimed": {"category": c["level"], "text": c["text"], "design_ref": c.get("design_ref", "DESIGN.md section 4.%s" % pid)},
         "level_note": c["note"] + " Dimensions that are not part of the contract's state -- numeric type of the arguments, special batch sizes, process boundaries, call history across objects and runs, exact floating-point boundaries -- are covered only by the stated bounded native designs (listed in the evidence under bounded_standins, never counted as proved).",
-        "technique": c["technique"],
+        "technique": c["technique"] + EXTRA_TECH.get(pid, "") + COMMON_TECH,
     })
 na = [{"property_id": p, "reason": NOT_APPLICABLE[p]} for p in props if p not in CHECKS]
 assert all(p in NOT_APPLICABLE for p in props if p not in CHECKS), "every unclaimed property needs a reason"
